@@ -140,6 +140,14 @@ def _do(st, a):
         st.subscribe(_sub_cb(st, a), a.get('filt'))
     elif op == 'send':
         x = a['a']
+        if a.get('if_pgn') is not None and getattr(st, 'last_cb_pgn', None) != a['if_pgn']:
+            return          # the callback reacts to one PGN only
+        if a.get('once') is not None:
+            # performed at the first invocation of the callback only
+            done = st.once_done = getattr(st, 'once_done', set())
+            if a['once'] in done:
+                return
+            done.add(a['once'])
         st.send_pgn(x[0], x[1], x[2], x[3], x[4], payload(x[5]), (x[6] if len(x) > 6 else 0) / 1e6, x[7] if len(x) > 7 else 3)
     else:
         raise ValueError(op)
@@ -174,8 +182,12 @@ def _mk_call(sim, stacks, ev, res):
             ca = st.cas[ev['ca']]
             x = ev['a']
             ev2 = dict(ev, _state=(ca._device_address_state, ca._device_address), _t0=len(sim.trace))
-            r = st.call(('ca_send', sim.now, ev['ca'], x[0], x[1], x[2], x[3], payload(x[4])),
-                        lambda: ca.send_pgn(x[0], x[1], x[2], x[3], payload(x[4])))
+            if len(x) > 5:        # with a time limit (FD multi-PG collection): x[5] microseconds
+                r = st.call(('ca_send_tl', sim.now, ev['ca'], x[0], x[1], x[2], x[3], payload(x[4]), x[5]),
+                            lambda: ca.send_pgn(x[0], x[1], x[2], x[3], payload(x[4]), x[5] / 1e6))
+            else:
+                r = st.call(('ca_send', sim.now, ev['ca'], x[0], x[1], x[2], x[3], payload(x[4])),
+                            lambda: ca.send_pgn(x[0], x[1], x[2], x[3], payload(x[4])))
             res.returns.append((dict(ev2, _t1=len(sim.trace)), r))
         elif op == 'ca_send_message':
             ca = st.cas[ev['ca']]
